@@ -79,6 +79,17 @@ def _want_names(members):
 
 
 def check_archive(ctx, ms, members, blob, variant, attrs):
+    """(scratch files of the real-file modes live in a directory of their own that is removed whatever happens)"""
+    import shutil
+    import tempfile
+    td = tempfile.mkdtemp(prefix="verif-c20-")
+    try:
+        return _check_archive(ctx, ms, members, blob, variant, attrs, td)
+    finally:
+        shutil.rmtree(td, ignore_errors=True)
+
+
+def _check_archive(ctx, ms, members, blob, variant, attrs, td):
     from dissect.hypervisor.util import vmtar
 
     det = {"members": ms, "variant": variant}
@@ -89,7 +100,7 @@ def check_archive(ctx, ms, members, blob, variant, attrs):
         try:
             if mode in ("path", "gzip-path", "gzip-filehandle"):
                 # the archive as a real file (its compressed size is what the file system reports), by name and as an open handle
-                tf = tempfile.NamedTemporaryFile(prefix="verif-c20-", suffix=".vgz" if mode != "path" else ".vtar", delete=False)
+                tf = tempfile.NamedTemporaryFile(dir=td, prefix="a-", suffix=".vgz" if mode != "path" else ".vtar", delete=False)
                 tf.write(blob if mode == "path" else gzip.compress(blob))
                 tf.close()
                 keep.append(tf.name)
